@@ -54,6 +54,9 @@ func init() {
 			call = func() { p, _, frames = VLeafNonTest(c, name, standalone) }
 		case "utiltest":
 			call = func() { p, _, frames = vLeafUtil(c, name, standalone) }
+		case "nontestdeep":
+			depth := o.Count
+			call = func() { p, _, frames = VLeafDeepNonTest(depth, c, name, standalone) }
 		}
 		// Values = wrappers around it, outermost first
 		for i := len(o.Values) - 1; i >= 0; i-- {
